@@ -23,7 +23,7 @@ ASSUMPTIONS = ["termination restated as a step budget of 2e5 + 2e3*len(text) lin
                "texts declaring registers larger than 6 qubits, or whose loops unroll to more than 20000 statement executions, are parsed but not executed (resource use proportional to the program, not termination)",
                "ImportError is accepted only when the program names a pulse module and pulses are auto-loaded"]
 TIERS = {"quick": {"shards": 8, "budget_s": 55}, "thorough": {"shards": 16, "budget_s": 480}}
-REQUIRE = {"calls": 20000, "class:random": 1000, "class:truncation": 2000, "class:mutant": 2000, "class:template": 200,
+REQUIRE = {"hang-probes": 15, "calls": 20000, "class:random": 1000, "class:truncation": 2000, "class:mutant": 2000, "class:template": 200,
            "outcome:JaqalParseError": 2000, "outcome:JaqalError": 500, "outcome:ok": 500, "position-checked": 2000,
            "histories": 8, "history-steps": 300, "fresh-single-text-runs": 8, "illegal-character-texts": 200,
            "relative-import-probes": 1}
@@ -251,9 +251,12 @@ def check_position(text, pos):
         return False
     ill = first_illegal(text)
     if ill is not None:
-        # lexical error (or a syntax error before it): any token position before it, or at/after the illegal character
-        if (line, col) >= (ill.line, ill.col):
+        # lexical error (or a syntax error before it): the position of a token before it, or of the offending
+        # character / literal itself (its first character)
+        if (line, col) == (ill.line, ill.col):
             return True
+        if (line, col) > (ill.line, ill.col):
+            return False
         try:
             toks = refparse.lex(text[:ill.pos])
         except refparse.LexFailure:
@@ -621,10 +624,80 @@ def call_import(text, path):
         return ("other:" + type(ex).__name__, None, str(ex)[:200]), {}
 
 
+# ---------------------------------------------------------------------------------------
+# termination where logical steps cannot be counted: time spent inside one C-level call (a regular expression that
+# backtracks).  Tiny inputs, one child process each, a wall-clock limit four orders of magnitude above the normal cost,
+# a retry alone and a control input of the same size before anything is called a violation.
+# ---------------------------------------------------------------------------------------
+HANG_TEXTS = (
+    [("unterminated-block-comment", "register q[1]\n/* " + "licence text " * k) for k in (1, 3, 8, 20)] +
+    [("unterminated-block-comment-stars", "/*" + "* " * 40), ("unterminated-block-comment-stars", "/* " + "**" * 30 + " x"),
+     ("comment-slashes", "X q[0] //" + "/" * 300), ("comment-star-slash-runs", "/*" + "/*" * 60),
+     ("dotted-identifier", "a" + ".a" * 120 + ". x"), ("dotted-identifier", "from " + "a." * 100 + " usepulses *"),
+     ("number-runs", "g " + "1" * 60 + "." + "e" * 3), ("number-runs", "g 1." + "1e" * 40), ("number-runs", "g " + "+-" * 60 + "1"),
+     ("binary-literal", "g '" + "01" * 100), ("bracket-run", "<" * 300), ("bracket-run", "{" * 300 + "}" * 299),
+     ("bar-run", "< " + "| " * 300 + ">"), ("semicolon-run", ";" * 2000), ("newline-run", "\n" * 5000 + "@")])
+
+HANG_CHILD = r"""
+import sys, time
+text = sys.stdin.read()
+t0 = time.time()
+from jaqalpaq.parser import parse_jaqal_string
+from jaqalpaq.error import JaqalError
+t1 = time.time()
+try:
+    parse_jaqal_string(text, autoload_pulses=False)
+    out = "ok"
+except JaqalError as ex:
+    out = "jaqal " + type(ex).__name__
+except BaseException as ex:
+    out = "exc " + type(ex).__name__
+print(out, round(time.time() - t1, 3))
+"""
+
+
+def _timed_parse(text, timeout):
+    try:
+        p = subprocess.run([sys.executable, "-c", HANG_CHILD], input=text, capture_output=True, text=True, timeout=timeout,
+                           cwd=harness.ROOT, env=dict(os.environ))
+    except subprocess.TimeoutExpired:
+        return "timeout", None
+    if p.returncode != 0:
+        return "child-failed", p.stderr[-300:]
+    w = p.stdout.split()
+    return w[0], float(w[-1])
+
+
+def hang_probe(ctx):
+    rec = ctx.rec
+    for kind, text in HANG_TEXTS:
+        st, t = _timed_parse(text, 25)
+        rec.count("hang-probes")
+        if st == "child-failed":
+            rec.inconc("hang probe child failed: %s" % t)
+            continue
+        if st != "timeout":
+            rec.maximum("max_seconds_for_a_hang_probe", t)
+            if st == "exc":
+                rec.violation(sig("C16", "escaping-exception:hang-probe:" + kind), {"text": text[:200]}, {"kind": "hang", "text": text, "class": kind})
+            continue
+        # did not finish in 25 s: once more, alone, with a longer limit, and a harmless text of the same length as control
+        st2, t2 = _timed_parse(text, 60)
+        ctl, tc = _timed_parse("// " + "x" * len(text) + "\nregister q[1]\n", 60)
+        if st2 == "timeout" and ctl in ("ok", "jaqal") and tc is not None and tc < 5:
+            rec.violation(sig("C16", "does-not-terminate:" + kind),
+                          {"characters": len(text), "limit_s": 60, "control_text_of_same_length_s": tc, "text": text[:200]},
+                          {"kind": "hang", "text": text, "class": kind})
+        else:
+            rec.inconc("hang probe %s timed out once (retry: %s, control: %s %s)" % (kind, st2, ctl, tc))
+
+
 def shard(ctx):
     rec = ctx.rec
     rng = ctx.rng
     monitors.install_contracts()
+    if ctx.index == ctx.nshards - 1:
+        hang_probe(ctx)
     pool = []
     # templates
     for j, t in enumerate(TEMPLATES):
@@ -687,6 +760,11 @@ def shard(ctx):
 
 
 def replay(ctx, case):
+    if case.get("kind") == "hang":
+        st, t = _timed_parse(case["text"], 60)
+        if st == "timeout":
+            ctx.rec.violation(sig("C16", "does-not-terminate:" + case.get("class", "")), {"characters": len(case["text"]), "limit_s": 60}, case)
+        return
     if case.get("kind") in ("history", "import"):
         print("replay of process-level histories is done by re-running the check; steps are in the replay file")
         return
